@@ -12,7 +12,7 @@ from glue.viewers.matplotlib.state import (MatplotlibDataViewerState,
 from glue.core.data_combo_helper import ManualDataComboHelper, ComponentIDComboHelper
 from glue.utils import defer_draw, avoid_circular
 from glue.core.link_manager import is_convertible_to_single_pixel_cid
-from glue.core.exceptions import IncompatibleDataException
+from glue.core.exceptions import IncompatibleDataException, IncompatibleAttribute
 from glue.core.message import SubsetUpdateMessage
 from glue.core.units import find_unit_choices, UnitConverter
 
@@ -289,7 +289,12 @@ class ProfileViewerState(MatplotlibDataViewerState):
         for layer_state in self.layers:
             # NOTE: only Data and its subclasses support specifying units
             if isinstance(layer_state.layer, Data):
-                component = layer_state.layer.get_component(layer_state.attribute)
+                # The attribute may have just been removed from the data
+                # without the layer state having been updated yet.
+                try:
+                    component = layer_state.layer.get_component(layer_state.attribute)
+                except IncompatibleAttribute:
+                    continue
                 if component.units:
                     component_units.add((layer_state.layer, layer_state.attribute, component.units))
         y_choices = [None] + find_unit_choices(component_units)
